@@ -4,6 +4,7 @@ import z3
 from .symex import State, Sym, Obj, VecV, Ref, FnItem, FutureV, UNIT, Unsupported, fresh_name
 from . import pearl as P
 from . import summaries as S
+from . import mirparse as MP
 from .pearl import BV64
 from .ob_blob import file_obj, _check_paths, _ev_result_ok, idx
 from .ob_record import BYTES_SUMMARIES, mk_buf, _buf
@@ -198,3 +199,61 @@ def append_writable_only_appends(crate):
 
     _check_paths(ex, res, outs, per_path)
     return P.finish(ex, res, ["single buffer written", "two buffers written", "first of two writes failed", "second write failed"])
+
+
+def open_flags_positional(crate):
+    """C11/C07: the OpenOptions the io driver hands to File::from_file for blob files.  Every record is written with a
+    positional write at the offset reserved from the size counter (append_all_only_appends), and pwrite(2) on an O_APPEND
+    descriptor ignores that offset.  So neither IoDriver::open nor IoDriver::create may ask for append (or truncate); both
+    ask for read and write; only create creates."""
+    res = P.ObResult("open_flags_positional")
+    res.functions = ["IoDriver::open setup closure", "IoDriver::create setup closure"]
+    res.bounds = "loop-free; tokio::fs::OpenOptions builder calls recorded as events (flag name, constant)"
+    ex = P.mk_executor(crate, cap=1, loop_bound=2, inline=[])
+    seen = {}
+    for which in ("open", "create"):
+        body = crate.find(r"^io::unix::sync::<impl at [^>]*>::%s::\{closure#0\}::\{closure#0\}$" % which)
+        MP.parse_body(body)
+        st = State()
+
+        def h_flag(ex_, st_, frame, t, nf, args, dty):
+            v = args[1]
+            st_.events.append(("openopt", nf.rsplit("::", 1)[1], v.t if isinstance(v, Sym) else None))
+            return [(args[0], None)]
+        ex.summaries.insert(0, (re.compile(r"^tokio::fs::OpenOptions::\w+$"), h_flag))
+        env = st.new_cell(Obj(body.args[0][1].lstrip("&")))
+        oo = st.new_cell(Obj("tokio::fs::OpenOptions"))
+        ex.push_frame(st, body, [Ref(env, (), False, body.args[0][1]), Ref(oo, (), True, "&mut tokio::fs::OpenOptions")], None, None)
+        outs = [o for o in ex.run(st) if o.status == "returned"]
+        ex.summaries.pop(0)
+        res.paths += len(outs)
+        if len(outs) != 1:
+            res.status = "inconclusive"; res.detail = "%s setup closure: %d paths" % (which, len(outs)); break
+        o = outs[0]
+        flags = {}
+        for e in o.events:
+            if e[0] != "openopt":
+                continue
+            if e[2] is None or not (z3.is_true(z3.simplify(e[2])) or z3.is_false(z3.simplify(e[2]))):
+                res.status = "inconclusive"; res.detail = "non-constant flag %s" % e[1]; break
+            flags[e[1]] = z3.is_true(z3.simplify(e[2]))
+        if res.status != "holds":
+            break
+        seen[which] = flags
+        want = {"append": False, "truncate": False, "read": True, "write": True, "create_new": False,
+                "create": which == "create"}
+        for k, v in want.items():
+            if flags.get(k, False) != v:
+                res.status = "violated"
+                res.detail = "IoDriver::%s opens blob files with %s(%s): %s" % (
+                    which, k, str(flags.get(k, False)).lower(),
+                    "positional writes are ignored on an append-mode descriptor" if k == "append" else "expected %s" % v)
+                res.counterexample = {"function": "IoDriver::%s" % which, "flags": flags}
+                break
+        if res.status != "holds":
+            break
+        extra = set(flags) - set(want)
+        if extra:
+            res.status = "inconclusive"; res.detail = "unmodelled OpenOptions flag(s) %s" % sorted(extra); break
+        P.cover(ex, res, o, z3.BoolVal(True), "%s flags read" % which)
+    return P.finish(ex, res, ["open flags read", "create flags read"] if res.status == "holds" else [])
